@@ -149,4 +149,39 @@ def intended (c : Cfg) : List (Bytes × Bytes) :=
   | .introspect => bodyCreds c ++ [(s "token", c.a)] ++ optPair "token_type_hint" c.hint
   | .revoke => bodyCreds c ++ [(s "token", c.a)] ++ optPair "token_type_hint" c.hint
 
+/-! ## The request builders (consuming builder methods of the eight request types)
+
+A request starts from the client (`fresh`: the client's id, secret, auth type and — for the code exchange — default
+redirect; no scopes, extras, verifier, override or hint) and every builder method returns it with ONE item changed.
+`setTimeFn` / `setMaxBackoff` (device access-token request) configure the poll loop (Model/Device.lean) and leave
+the HTTP request untouched. -/
+
+inductive BOp
+  | addScope (x : Bytes)
+  | addScopes (xs : List Bytes)
+  | addExtra (k v : Bytes)
+  | setVerifier (v : Bytes)
+  | setRedirect (r : Bytes)
+  | setHint (h : Bytes)
+  | setTimeFn
+  | setMaxBackoff
+deriving DecidableEq, Repr
+
+def applyB (c : Cfg) : BOp → Cfg
+  | .addScope x => { c with scopes := c.scopes ++ [x] }
+  | .addScopes xs => { c with scopes := c.scopes ++ xs }
+  | .addExtra k v => { c with extras := c.extras ++ [(k, v)] }
+  | .setVerifier v => { c with verifier := some v }
+  | .setRedirect r => { c with overrideRedirect := some r }
+  | .setHint h => { c with hint := some h }
+  | .setTimeFn => c
+  | .setMaxBackoff => c
+
+def applyBs (c : Cfg) (ops : List BOp) : Cfg := ops.foldl applyB c
+
+/-- the request a `*_impl` constructor creates -/
+def fresh (k : Kind) (basicAuth : Bool) (clientId : Bytes) (secret clientRedirect : Option Bytes) (url a b : Bytes) : Cfg :=
+  { kind := k, basicAuth := basicAuth, clientId := clientId, secret := secret, clientRedirect := clientRedirect,
+    overrideRedirect := none, scopes := [], extras := [], verifier := none, hint := none, a := a, b := b, url := url }
+
 end Req
